@@ -350,7 +350,7 @@ theorem blockInv (p : GProg) (I : St → Prop) (hI : LinkInv p I) : ∀ f, Block
             · cases h
             · cases h
         · split at h
-          · rename_i σ1 kvs' hp; cases h; exact iPairs _ _ _ _ _ _ _ hr hp
+          · rename_i σ1 kvs' hp; cases guardDup_ok h; exact iPairs _ _ _ _ _ _ _ hr hp
           · cases h
           · cases h
         · cases h
@@ -364,7 +364,7 @@ theorem blockInv (p : GProg) (I : St → Prop) (hI : LinkInv p I) : ∀ f, Block
       · -- list
         split at h
         · split at h
-          · rename_i σ1 xs' hx; cases h; exact iVals _ _ _ _ _ _ hr hx
+          · rename_i σ1 xs' hx; cases guardDup_ok h; exact iVals _ _ _ _ _ _ hr hx
           · cases h
           · cases h
         · split at h
@@ -375,7 +375,7 @@ theorem blockInv (p : GProg) (I : St → Prop) (hI : LinkInv p I) : ∀ f, Block
       · -- set
         split at h
         · split at h
-          · rename_i σ1 xs' hx; cases h; exact iVals _ _ _ _ _ _ hr hx
+          · rename_i σ1 xs' hx; cases guardDup_ok h; exact iVals _ _ _ _ _ _ hr hx
           · cases h
           · cases h
         · cases h
